@@ -2,7 +2,7 @@
    the parsed AST, the definition the implementation recorded for every identifier occurrence
    (ctx.resolutions after assign_languages + resolve_names) and the number of diagnostics per class;
    [model_of] recomputes all of it with Model/Resolve.v. *)
-From TV Require Import Base.I32 Model.ResolveSyntax Gen.RibTable Model.Resolve.
+From TV Require Import Base.I32 Model.ResolveSyntax Gen.RibTable Model.Resolve Model.ResolveRename.
 Open Scope Z_scope.
 
 Inductive obs :=
@@ -20,12 +20,6 @@ Fixpoint obs_of (id : Z) (l : list (Z * obs)) : obs :=
   match l with
   | [] => OOther
   | (i, o) :: t => if i =? id then o else obs_of id t
-  end.
-
-Definition user_id (d : def) : option Z :=
-  match d with
-  | DLocal i | DParam i | DConst i | DFunc i _ => Some i
-  | _ => None
   end.
 
 Definition obs_eqb (a b : obs) : bool :=
@@ -81,6 +75,8 @@ Definition model_of (c : c10case) : bool :=
   | KRes g fl sl p ol e =>
       let evs := resolve g fl sl p in
       let rs := res_events evs in
+      (* the tree satisfies the well-formedness hypothesis of the renaming theorem *)
+      wf_progb (prog_nm p) p &&
       (* exactly one result per occurrence, for exactly the occurrences the harness indexed *)
       (Nat.eqb (length rs) (length ol))
       && nodupz (map (fun e => match e with EvRes id _ => id | EvRedef id => id end) rs)
